@@ -107,6 +107,7 @@ pub fn check(c: &Case) -> CheckResult {
             o.nontrivial = partly && (opts.blend != SRC_OVER || !opaque_solid);
             o.class_if(partly, "rect-partly-covers-surface");
             o.class_if(x1 < 0 || y1 < 0 || x2 > c.w || y2 > c.h, "rect-off-surface");
+            o.class_if(partly && (x1 < -1000 || y1 < -1000 || x2 > c.w + 1000 || y2 > c.h + 1000), "rect-edge-far-off-surface-and-partly-covering");
             o.class_if(*rw == 0 || *rh == 0, "zero-size");
             o.class_if(*rw < 0 || *rh < 0, "negative-size");
             o.class_if((x2.min(c.w) - x1.max(0)) > 256 && !matches!(src, SrcSpec::Solid(_)), "span-beyond-256-with-varying-source");
@@ -172,6 +173,14 @@ pub fn strategy(ctx: &Ctx) -> BoxedStrategy<Case> {
             // same interval is expressed with a negative size half of the time
             let axis = |n: i32| {
                 let built = (-2..=n - 1).prop_flat_map(move |a| (Just(a), (a.max(0) + 1)..=(n + 2))).prop_flat_map(|(a, b)| prop_oneof![Just((a, b - a)), Just((b, a - b))]);
+                // far: an edge thousands of pixels off the surface (the other one anywhere near it), or both
+                let far = prop_oneof![
+                    (1000i32..=4000, -3..=n + 6).prop_map(|(d, k)| (-d, d + k)),
+                    (-4..=n + 4, 1000i32..=4000).prop_map(|(a, d)| (a, d)),
+                    (1000i32..=4000, 1000i32..=4000).prop_map(move |(d, e)| (-d, d + n + e)),
+                    (1000i32..=4000, -3..=n + 6).prop_map(|(d, k)| (k, -d - k)),
+                ];
+                let built = prop_oneof![9 => built.boxed(), 1 => far.boxed()];
                 if n > 256 {
                     // long axis: mostly spans longer than 256 pixels
                     prop_oneof![4 => (-2..=20i32, 0..=30i32).prop_map(move |(a, cut)| (a, n + 2 - cut - a)).boxed(), 3 => built.boxed(), 3 => (-4..=n + 4, -3..=n + 6).boxed()].boxed()
@@ -195,7 +204,7 @@ pub fn property(ctx: &Ctx) -> Property {
     let c = ctx.clone();
     Property {
         id: "C14",
-        rule: "cases: integer rectangles (origin in [-4,w+4], sizes in [-3,w+6] incl. zero and negative) on 1..12 px surfaces (one in twenty-five 257..330 px long or tall, with images up to 300 px wide) with random non-empty premultiplied contents, all 28 blend modes, solid/image/gradient sources, alpha in [0,1], AA and aliased; plus clear(c) and draw_image_at at integer positions. Oracle: bit-exact differential between four routes (fill_rect fast path; fill(PathBuilder::rect); fill_rect under a surface-covering clip rect; under a larger clip rect), one case in eight with all routes running inside a layer that was pushed under a small clip rectangle popped again before the draw (layer narrower than the surface, clip stack empty); clear under clip vs not; draw_image_at vs fill with translated image. Non-trivial: rectangle covers part but not all of the surface and (mode != SrcOver or source not an opaque solid at alpha 1); distinct by hash of the case.",
+        rule: "cases: integer rectangles (origin in [-4,w+4], sizes in [-3,w+6] incl. zero and negative; one axis in ten with an edge 1000..4000 px off the surface) on 1..12 px surfaces (one in twenty-five 257..330 px long or tall, with images up to 300 px wide) with random non-empty premultiplied contents, all 28 blend modes, solid/image/gradient sources, alpha in [0,1], AA and aliased; plus clear(c) and draw_image_at at integer positions. Oracle: bit-exact differential between four routes (fill_rect fast path; fill(PathBuilder::rect); fill_rect under a surface-covering clip rect; under a larger clip rect), one case in eight with all routes running inside a layer that was pushed under a small clip rectangle popped again before the draw (layer narrower than the surface, clip stack empty); clear under clip vs not; draw_image_at vs fill with translated image. Non-trivial: rectangle covers part but not all of the surface and (mode != SrcOver or source not an opaque solid at alpha 1); distinct by hash of the case.",
         assumptions: vec!["the general route (rasterised rectangle + mask blitters) is itself judged by C01/C02/C03"],
         parts: vec![part("routes", 250_000, 4_000_000, move || strategy(&c), check)],
         min_class_fraction: vec![("routes", "rect-partly-covers-surface", 0.3), ("routes", "non-srcover", 0.5), ("routes", "negative-size", 0.05), ("routes", "rect-off-surface", 0.2), ("routes", "span-beyond-256-with-varying-source", 0.001), ("routes", "inside-narrow-layer-with-empty-clip-stack", 0.05)],
